@@ -165,6 +165,9 @@ func c10lnstress(cs *h.Case, tr string, ns, nd int, listen bool) string {
 			}
 		}
 		if after == "listening" {
+			if tr == "tcp" {
+				cs.Fail("listens-after-stop", "a TCP listener that was stopped accepts connections again when Listen is called once more: its port is not released for good")
+			}
 			sd := make(chan struct{})
 			go func() { doStop(); close(sd) }()
 			select {
